@@ -10,6 +10,9 @@ CONSTANTS N = 3
  MaxByz = 0
  Vals = {1, 2}
  Script <- NoScript
+ Silent = {}
+ WinFamily = "none"
+ WinBudget = 0
  PreStarted = TRUE
 INVARIANTS Safety NoHonestUnjust
 PROPERTIES DecisionFrozen RoundMonotonic
